@@ -257,13 +257,16 @@ func genARule(t *rapid.T, label string, banp bool, prevPass *ARule, cfg *GenCfg)
 	if rapid.IntRange(0, 2).Draw(t, label+"hasports") > 0 {
 		r.HasPorts = true
 		n := rapid.IntRange(1, 3).Draw(t, label+"nports")
+		if rapid.IntRange(0, 11).Draw(t, label+"emptyports") == 0 {
+			n = 0 // `ports: []` - present but empty: the rule matches no port at all (unlike an omitted list)
+		}
 		for i := 0; i < n; i++ {
 			l := fmt.Sprintf("%sport%d", label, i)
 			ap := APort{}
 			switch rapid.IntRange(0, 2).Draw(t, l+"kind") {
 			case 0:
 				ap.Kind = "number"
-				ap.Proto = rapid.SampledFrom(protos).Draw(t, l+"proto")
+				ap.Proto = rapid.SampledFrom([]string{"", "TCP", "UDP", "SCTP"}).Draw(t, l+"proto")
 				ap.Port = genPort(t, l+"p")
 			case 1:
 				ap.Kind = "range"
@@ -538,6 +541,21 @@ func PermuteWorld(t *rapid.T, label string, w *World) *World {
 		}
 		p.Ingress = pr(p.Ingress, l+"in")
 		p.Egress = pr(p.Egress, l+"eg")
+	}
+	// inside an ANP/BANP rule the peers and the ports are unordered lists too (the RULES are ordered and stay put)
+	pa := func(a *AdminPol, l string) {
+		for _, rs := range [][]ARule{a.Ingress, a.Egress} {
+			for k := range rs {
+				rs[k].Peers = shuffle(t, fmt.Sprintf("%speers%d", l, k), rs[k].Peers)
+				rs[k].Ports = shuffle(t, fmt.Sprintf("%sports%d", l, k), rs[k].Ports)
+			}
+		}
+	}
+	for i := range c.ANPs {
+		pa(&c.ANPs[i], fmt.Sprintf("%sanp%d", label, i))
+	}
+	if c.BANP != nil {
+		pa(c.BANP, label+"banp")
 	}
 	return c
 }
